@@ -71,6 +71,10 @@ def load_program():
     return prog, key
 
 
+class JobTimeout(BaseException):
+    pass
+
+
 class Violation:
     def __init__(self, aid, harness, nondet, taken, note=''):
         self.aid = aid; self.harness = harness; self.nondet = nondet; self.taken = taken; self.note = note
@@ -111,6 +115,8 @@ class Explorer:
         self.init_pkgs = []
         self.max_paths = 200000
         self.samples = []
+        self.params = {}
+        self.ufs = {}
 
     # ---------------------------------------------------------------- intrinsics
     def install_intrinsics(self):
@@ -215,6 +221,38 @@ class Explorer:
             it.path.events.append(args[0].decode())
             return None
         P['vfNote'] = vfNote
+
+        def vfParam(it_, args, fn):
+            name = args[0].decode()
+            params = getattr(self, 'params', {})
+            if name not in params:
+                raise Unsupported('harness parameter %s not supplied' % name)
+            v = params[name]
+            base = fn['name'].rsplit('.', 1)[-1]
+            if base == 'vfParamStr':
+                v = v.encode('utf-8') if isinstance(v, str) else bytes(v)
+            it.path.nondet.append((base, name, v))
+            return v
+        P['vfParamStr'] = vfParam
+        P['vfParamInt'] = vfParam
+
+        def vfUF(it_, args, fn):
+            # uninterpreted function of int arguments: one z3 Function per (name, arity, result sort)
+            name = args[0].decode()
+            sl = args[1]
+            els = [] if sl.arr is None else list(sl.arr.a[sl.off:sl.off + sl.len])
+            base = fn['name'].rsplit('.', 1)[-1]
+            rs = z3.BoolSort() if base == 'vfUFBool' else z3.BitVecSort(64)
+            key = (name, len(els), base)
+            f = self.ufs.get(key)
+            if f is None:
+                f = z3.Function('uf_%s_%d' % (name, len(els)), *([z3.BitVecSort(64)] * len(els) + [rs])) if els else z3.Const('uf_%s_0' % name, rs)
+                self.ufs[key] = f
+            r = f(*[e if is_sym(e) else z3.BitVecVal(e, 64) for e in els]) if els else f
+            it.path.nondet.append((base, name, r))
+            return r
+        P['vfUFInt'] = vfUF
+        P['vfUFBool'] = vfUF
 
         def vfIsSym(it_, args, fn):
             return True
@@ -325,6 +363,7 @@ def run_harness(args):
         if 'instr_budget' in opts: ex.it.instr_budget = opts['instr_budget']
         if 'max_loop' in opts: ex.it.max_loop = opts['max_loop']
         if opts.get('panic_ok'): ex.uncaught_panic_is_violation = False
+        ex.params = opts.get('params', {})
         setup = None
         if opts.get('setup'):
             import importlib
